@@ -1738,7 +1738,14 @@ func exSpellingVariants(r *rng, g *exGraph) []*exInput {
 		}
 	}
 	// the resolvers that are given no root value, only its location - in another spelling - and a fragment-only reference
-	for i, sp := range exRootSpellings(r, g.Root, 3) {
+	fixed := []string{}
+	if k := strings.LastIndex(g.Root, "/"); k > 8 {
+		fixed = append(fixed, g.Root[:k]+"/."+g.Root[k:], g.Root[:k]+"/x/.."+g.Root[k:])
+		if strings.HasPrefix(g.Root, "file:///") {
+			fixed = append(fixed, "file:/"+strings.TrimPrefix(g.Root, "file:///"))
+		}
+	}
+	for i, sp := range append(fixed, exRootSpellings(r, g.Root, 2)...) {
 		for _, ec := range exElementCases(g) {
 			if ec.Form != "ref" {
 				continue
